@@ -233,7 +233,9 @@ func ProcOf(ctx context.Context) *Proc {
 func (s *Sim) Event(format string, args ...any) {
 	line := fmt.Sprintf(format, args...)
 	s.mu.Lock()
-	s.eventLocked(line)
+	if !s.draining {
+		s.eventLocked(line)
+	}
 	s.mu.Unlock()
 }
 
@@ -248,14 +250,18 @@ func (s *Sim) eventLocked(line string) {
 // Probe counts a reach probe.
 func (s *Sim) Probe(name string) {
 	s.mu.Lock()
-	s.Probes[name]++
+	if !s.draining {
+		s.Probes[name]++
+	}
 	s.mu.Unlock()
 }
 
 // Fired counts a fault that actually took effect.
 func (s *Sim) Fired(kind string) {
 	s.mu.Lock()
-	s.Faults[kind]++
+	if !s.draining {
+		s.Faults[kind]++
+	}
 	s.mu.Unlock()
 }
 
@@ -263,8 +269,11 @@ func (s *Sim) Fired(kind string) {
 func (s *Sim) Violate(oracle, sig, format string, args ...any) {
 	msg := fmt.Sprintf(format, args...)
 	s.mu.Lock()
-	s.Violations = append(s.Violations, Violation{Oracle: oracle, Sig: sig, Msg: msg})
-	s.eventLocked("VIOLATION " + sig + ": " + msg)
+	if !s.draining {
+		// what a dead process "observes" while it unwinds is not an observation
+		s.Violations = append(s.Violations, Violation{Oracle: oracle, Sig: sig, Msg: msg})
+		s.eventLocked("VIOLATION " + sig + ": " + msg)
+	}
 	s.mu.Unlock()
 }
 
@@ -403,11 +412,16 @@ func (s *Sim) Run() {
 		}
 		var enabled []*parked
 		var waiting []*parked
+		expired := map[*parked]bool{}
 		for _, p := range s.parked {
 			if p.proc.Dead {
 				continue
 			}
 			if p.guard == nil || p.guard() {
+				enabled = append(enabled, p)
+			} else if p.hasDeadline && p.deadline <= s.Now {
+				// its timeout has passed: it may be released with a timeout at any moment
+				expired[p] = true
 				enabled = append(enabled, p)
 			} else {
 				waiting = append(waiting, p)
@@ -463,6 +477,18 @@ func (s *Sim) Run() {
 			}
 		}
 		chosen := enabled[idx]
+		if expired[chosen] {
+			s.mu.Lock()
+			s.removeLocked(chosen)
+			s.Steps++
+			s.eventLocked(fmt.Sprintf("%d T %s timeout", s.Steps, chosen.key))
+			s.schedHash.Write([]byte(chosen.key + "!T\n"))
+			s.current = chosen
+			s.curDec = Decision{Timeout: true}
+			s.mu.Unlock()
+			chosen.ch <- Decision{Timeout: true}
+			continue
+		}
 		if s.lastProc != "" && chosen.op.Proc != s.lastProc {
 			s.Preempts++
 		}
@@ -477,6 +503,18 @@ func (s *Sim) Run() {
 			s.Now += time.Duration(dec.Arg) * time.Millisecond
 			s.Faults["stall"]++
 			dec = Decision{}
+		}
+		if dec.Fault == "machine-crash" {
+			s.Event("%d M %s", s.Steps, chosen.key)
+			s.schedHash.Write([]byte(chosen.key + "!M\n"))
+			s.Faults["machine-crash"]++
+			s.mu.Lock()
+			procs := append([]*Proc(nil), s.procList...)
+			s.mu.Unlock()
+			for _, p := range procs {
+				s.Kill(p)
+			}
+			continue
 		}
 		if dec.Fault == "proc-crash" {
 			s.Event("%d K %s", s.Steps, chosen.key)
